@@ -83,7 +83,8 @@ def rand_assignment(rng, params, n, required=()):
                 # value-keyed shortcuts (hash(-1) == hash(-2), truthiness of 0) go wrong
                 grid = [-2, -1, 0, 1, 2, -3, 3]
                 rng.shuffle(grid)
-                vs = [float(v) for v in grid[:n]] if rng.random() < 0.5 else sorted(float(v) for v in grid[:n])
+                grid = (grid + [rng.randint(-3, 3) for _ in range(n)])[:n]          # any sweep length
+                vs = [float(v) for v in grid] if rng.random() < 0.5 else sorted(float(v) for v in grid)
                 if rng.random() < 0.5:
                     passed[nm] = np.array(vs).astype(int)
                     cols[nm] = vs
@@ -253,7 +254,8 @@ def rand_solver_case(rng, nmax):
             if rng.random() < 0.25:
                 grid = [-2, -1, 0, 1, 2, -3]
                 rng.shuffle(grid)
-                vals = [Fraction(v) for v in grid[:n]]          # integer scan around zero (both -1 and -2 present for n >= 5, often otherwise)
+                grid = (grid + [rng.randint(-3, 3) for _ in range(n)])[:n]
+                vals = [Fraction(v) for v in grid]          # integer scan around zero (both -1 and -2 present for n >= 5, often otherwise)
             elif rng.random() < 0.5:
                 vals[0] = Fraction(0)
             if rng.random() < 0.15:
